@@ -95,3 +95,16 @@ Proof. split; reflexivity. Qed.
 (* a revoke_and_ack before channel_ready is not a run *)
 Example slot_run_rejects : run st0 [SOpen; SRevoke] = None.
 Proof. reflexivity. Qed.
+
+(* C06_unreceived_unknown is not vacuous and not trivially about an empty
+   store: after 20 accepted secrets (5 buckets in use) the received index 19
+   is answered, the unreceived indices 20, 21 and 2^48-1 are not. *)
+Example unreceived_unknown_occurs :
+  match t_add_all new_store (t_prod 12345 20) with
+  | Some st => (match t_lookup st 19 with Some _ => true | None => false end)
+               && (match t_lookup st 20 with Some _ => false | None => true end)
+               && (match t_lookup st 21 with Some _ => false | None => true end)
+               && (match t_lookup st start_index with Some _ => false | None => true end)
+  | None => false
+  end = true.
+Proof. vm_compute. reflexivity. Qed.
